@@ -236,16 +236,15 @@ func (e *DNSEntry) decodeRRs(count int, p DNS, offset int, buffer []byte) (int, 
 			}
 
 		case 12: // PTR record
+			// only <d>.<c>.<b>.<a>.in-addr.arpa names an IPv4 address a.b.c.d; anything else
+			// (no in-addr.arpa suffix, ip6.arpa, DNS-SD, IPv6 text) is ignored
 			s := strings.TrimSuffix(string(name), ".in-addr.arpa")
-			tmp := net.ParseIP(s)
-			if tmp == nil { // not an IPv4 reverse name (ip6.arpa, DNS-SD): ignore the record
+			addr, perr := netip.ParseAddr(s)
+			if len(s) == len(name) || perr != nil || !addr.Is4() {
 				break
 			}
-			if tmp = tmp.To4(); tmp == nil {
-				fmt.Printf("dns   : ignoring ptr ip6=%s\n", tmp)
-				break
-			}
-			ip, _ := netip.AddrFromSlice([]byte{tmp[3], tmp[2], tmp[1], tmp[0]})
+			tmp := addr.As4()
+			ip := netip.AddrFrom4([4]byte{tmp[3], tmp[2], tmp[1], tmp[0]})
 			var ptr []byte
 			tmpBuf = buffer
 			ptr, _, err = decodeName(p, endq+10, &tmpBuf, 1)
